@@ -485,5 +485,6 @@ specialise(
     bounds="one list of 2 choices used by one select; companion of b.choices without the 'every choice is labelled' assumption",
     weight=60,
     expect="known",
+    reach=False,
     classifier=_classify_unlabeled,
 )
